@@ -15,6 +15,7 @@ package main
 import (
 	"encoding/hex"
 	"fmt"
+	"path"
 
 	"github.com/tikv/pd/pkg/codec"
 	"github.com/tikv/pd/server/core"
@@ -35,6 +36,25 @@ func withIDs(groups, rules []string) (restore func()) {
 func runOddIDs(r *ev.Run, rp *reporter) {
 	defer withIDs(append([]string{"pd"}, oddGroups...), []string{"default", "r", "R", "c", "b-c", "r/1", ".."})()
 	run := func(name string, h []opSpec) {
+		// ids that path.Join (used for the group storage key) does not preserve get their own class
+		cls := "odd-ids"
+		for _, op := range h {
+			ids := []string{op.GroupID}
+			if op.Group != nil {
+				ids = append(ids, op.Group.ID)
+			}
+			if op.Bundle != nil {
+				ids = append(ids, op.Bundle.ID)
+			}
+			for _, b := range op.Bundles {
+				ids = append(ids, b.ID)
+			}
+			for _, id := range ids {
+				if id != "" && path.Join("x", id) != "x/"+id {
+					cls = "group-id-changed-by-path-join"
+				}
+			}
+		}
 		x, err := newRunner(r, nil)
 		if err != nil {
 			r.Inconclusive("Initialize on empty storage failed: %v", err)
@@ -44,6 +64,8 @@ func runOddIDs(r *ev.Run, rp *reporter) {
 			fs := x.step(op, i == len(h)-1)
 			for j := range fs {
 				fs[j].What = "[ids " + name + "] " + fs[j].What
+				fs[j].Key = cls + ":" + fs[j].Key
+				r.Count("odd_id_finding:"+name, 1)
 			}
 			rp.report("odd-ids", 0, x, fs)
 			if len(fs) > 0 || x.dead {
@@ -68,6 +90,33 @@ func runOddIDs(r *ev.Run, rp *reporter) {
 				{Kind: kDeleteGroupBundle, GroupID: g2},
 			})
 		}
+	}
+	// ids that the group storage key does not preserve, through the other entry points that carry a
+	// group configuration, and the removal of such a group's configuration next to its neighbour
+	for _, bad := range []string{"a/", "a//b", ".."} {
+		good := map[string]string{"a/": "a", "a//b": "a/b", "..": "a"}[bad]
+		br := []ruleSpec{*rule(bad, "r")}
+		run(fmt.Sprintf("DeleteRuleGroup %q next to %q", bad, good), []opSpec{
+			{Kind: kSetRule, Rule: rule(good, "r")}, {Kind: kSetRuleGroup, Group: &groupSpec{ID: good, Index: 1}},
+			{Kind: kSetRule, Rule: rule(bad, "r")}, {Kind: kDeleteRuleGroup, GroupID: bad}, {Kind: kDeleteGroupBundle, GroupID: bad},
+		})
+		run(fmt.Sprintf("SetGroupBundle %q next to %q", bad, good), []opSpec{
+			{Kind: kSetRule, Rule: rule(good, "r")}, {Kind: kSetRuleGroup, Group: &groupSpec{ID: good, Index: 1}},
+			{Kind: kSetGroupBundle, Bundle: &bundleSpec{ID: bad, Index: 2, Rules: br}},
+		})
+		run(fmt.Sprintf("SetAllGroupBundles %q next to %q", bad, good), []opSpec{
+			{Kind: kSetRule, Rule: rule(good, "r")}, {Kind: kSetRuleGroup, Group: &groupSpec{ID: good, Index: 1}},
+			{Kind: kSetAllGroupBundles, Bundles: []bundleSpec{{ID: bad, Index: 2, Rules: br}}},
+		})
+		run(fmt.Sprintf("SetAllGroupBundles(override) %q", bad), []opSpec{
+			{Kind: kSetRule, Rule: rule(good, "r")}, {Kind: kSetRuleGroup, Group: &groupSpec{ID: good, Index: 1}},
+			{Kind: kSetAllGroupBundles, OverrideAll: true, Bundles: []bundleSpec{{ID: "pd", Rules: []ruleSpec{{Group: "pd", ID: "default", Role: "voter", Count: 3}}}, {ID: bad, Override: true, Rules: []ruleSpec{{Group: bad, ID: "v", Role: "voter", Count: 1}}}}},
+		})
+		run(fmt.Sprintf("Batch with rules of %q", bad), []opSpec{
+			{Kind: kSetRule, Rule: rule(good, "r")}, {Kind: kSetRuleGroup, Group: &groupSpec{ID: good, Index: 1}},
+			{Kind: kBatch, Batch: []batchSpec{{Action: "add", Rule: *rule(bad, "r")}, {Action: "add", Rule: *rule(bad, "c")}}},
+			{Kind: kBatch, Batch: []batchSpec{{Action: "del", Rule: ruleSpec{Group: bad, ID: "r"}, Prefix: true}}},
+		})
 	}
 	for _, p := range [][4]string{{"a-b", "c", "a", "b-c"}, {"a", "r", "a", "R"}, {"a", "r", "A", "r"}, {"a", "r/1", "a", "r"}, {"a", "..", "a", "r"}, {"a/b", "r", "a", "b-c"}} {
 		run(fmt.Sprintf("rules %q/%q %q/%q", p[0], p[1], p[2], p[3]), []opSpec{
@@ -97,7 +146,12 @@ func runKeyType(r *ev.Run, rp *reporter) {
 		{Kind: kBatch, Batch: []batchSpec{{Action: "add", Rule: ruleSpec{Group: "b", ID: "x", StartHex: encHex("2000"), EndHex: "", Role: "voter", Count: 1}}}}, // encoded, unbounded
 		{Kind: kSetGroupBundle, Bundle: &bundleSpec{ID: "ab", Index: 1, Rules: []ruleSpec{{Group: "ab", ID: "l", StartHex: "", EndHex: encHex("ff"), Role: "learner", Count: 2}}}},
 		{Kind: kGetModifySet, Mod: &modSpec{Group: "a", ID: "r1", Field: "end", Str: encHex("40")}},
-		{Kind: kGetModifySet, Mod: &modSpec{Group: "a", ID: "r1", Field: "end", Str: "80"}}, // raw: refused, nothing changes
+		{Kind: kGetModifySet, Mod: &modSpec{Group: "a", ID: "r1", Field: "end", Str: "80"}},                                      // raw: refused, nothing changes
+		{Kind: kSetRule, Rule: &ruleSpec{Group: "a", ID: "r2", StartHex: "10", EndHex: "", Role: "learner", Count: 1}},           // raw start, unbounded
+		{Kind: kSetRule, Rule: &ruleSpec{Group: "a", ID: "r2", StartHex: "10", EndHex: encHex("30"), Role: "learner", Count: 1}}, // raw start, encoded end
+		{Kind: kSetRule, Rule: &ruleSpec{Group: "a", ID: "r2", StartHex: "", EndHex: "30", Role: "learner", Count: 1}},           // raw end only
+		{Kind: kSetRule, Rule: &ruleSpec{Group: "a", ID: "r2", StartHex: encHex("10"), EndHex: "30", Role: "learner", Count: 1}}, // encoded start, raw end
+		{Kind: kSetRule, Rule: &ruleSpec{Group: "a", ID: "r2", StartHex: encHex("10"), EndHex: encHex("30"), Role: "learner", Count: 1}},
 	}
 	refused := 0
 	for i, op := range steps {
